@@ -408,6 +408,10 @@ PROPS["C07"]["claim"] += (" EVERY HISTORY (survives_every_history / survives_fro
     "(read; keep the intact prefix or write a fresh signature; append complete records; possibly die after k bytes of a record or of the "
     "signature) - for ANY sequence of such invocations the file is never refused, always has the shape 'complete records + strict prefix of "
     "one more record (or of the signature)', and the next start-up loads exactly the records whose append completed, in order.")
+PROPS["C10"]["claim"] += (" FILE LEVEL (manifest_read_as_written; Lemmas/FileSpec): for a main manifest whose text is any sequence of written statements "
+    "(bindings, rule / pool blocks, build statements, default) with blank lines and comments anywhere, load::read = the fold of the statements' "
+    "effects over the loader, in order (stmtLoop_file: noise skipped with one unit of fuel each, every statement read by its byte-level theorem, "
+    "the scanner handed on at exactly the next statement); include / subninja remain correspondence-only.")
 PROPS["C10"]["claim"] += (" `pool` blocks now have their statement-level theorem too (pool_read_as_written: name and the depth its `depth` binding evaluates to).")
 PROPS["C18"]["claim"] += (" THE OTHER HALF (requested_closure_is_marked, Lemmas/SchedComplete): when run::build reports success every build a requested file "
     "needs through ordering OR validation inputs has left Unknown - joint induction over want_file / want_build / the two input loops with the invariant "
